@@ -19,9 +19,15 @@
 // equal to the source and independent of it in both directions (assign-*).
 // Subcheck `after_reject`: a case is [texts parsed before (mostly malformed; the outcome of parsing them is not
 // asserted), one tree, one option mask]; the round-trip clauses above must hold whatever the same thread parsed before.
+// Subcheck `deep`: "arbitrarily nested": chains of 101..5200 (thorough: 10000) lists / dictionaries, run on a thread with a
+// 512 MiB stack (the library and the model recurse once per level; the stack is the harness's to provide); the case
+// carries the set of option masks to evaluate as a 64-bit map (FORMAT output grows with depth^2).
 // The signature carries the kind of the smallest sub-tree that fails on its own and the smallest failing mask.
 #include <float.h>
 #include <math.h>
+#include <pthread.h>
+
+#include <exception>
 
 #include <phosg/JSON.hh>
 
@@ -60,8 +66,9 @@ static void enc(const Node& n, Case& c) {
 struct Dec {
   const Case& c;
   size_t ni = 0, si = 0;
+  int max_depth = 400; // `deep` cases (decoded on the big-stack thread) raise it
   Node node(int depth = 0) {
-    if (depth > 400) throw std::logic_error("case: tree too deep");
+    if (depth > max_depth) throw std::logic_error("case: tree too deep");
     uint64_t k = c.u(ni++);
     switch (k) {
       case Node::NUL: return Node::null();
@@ -117,7 +124,7 @@ struct Problem {
 
 static std::string clip(const std::string& t, size_t n = 160) { return jt::show_bytes(t.size() > n ? t.substr(0, n) : t) + (t.size() > n ? "..." : ""); }
 
-static Problem check_mask(const Node& model, const JSON& v, uint32_t mask, bool has_float, const std::function<void()>* before_parse = nullptr) {
+static Problem check_mask(const Node& model, const JSON& v, uint32_t mask, bool has_float, const std::function<void()>* before_parse = nullptr, size_t ref_depth_limit = 1000) {
   std::string t = v.serialize(mask);
   JSON p;
   try {
@@ -142,7 +149,7 @@ static Problem check_mask(const Node& model, const JSON& v, uint32_t mask, bool 
     }
     jt::Diff ds = jt::diff(jt::from_json(ps), model, jt::SAME_KIND_SIX_DIGITS);
     if (!ds.none()) return {"strict-value-changed:" + ds.cls, cat("strict parse(serialize(v, 0x", std::hex, mask, ")) differs at ", ds.text, "; text = ", clip(t))};
-    rj::Result r = rj::parse_document(t, 1000);
+    rj::Result r = rj::parse_document(t, ref_depth_limit);
     if (!r.ok) return {"standard:ref-rejects", cat("the output of serialize(v, 0x", std::hex, mask, ") is not RFC 8259 JSON: ", r.error, " at offset ", std::dec, r.error_pos, "; text = ", clip(t))};
     for (unsigned char ch : t)
       if (ch >= 0x7F) return {"standard:non-ascii-output", cat("serialize(v, 0x", std::hex, mask, ") emitted byte 0x", (int)ch, " unescaped")};
@@ -245,11 +252,41 @@ static void check_copies(const Node& model, const JSON& v, const jt::Stats& st) 
 
 // ---------------------------------------------------------------- run
 
-static void run_tree(const Case& c) {
-  Node model = decode(c);
+// For a tall tree: the deepest sub-tree on the path through the last container child of each level that still fails
+// with the same clause (binary search; the answer goes into the message, the signature says "deep-nesting").
+static std::string localise_deep(const Node& n, uint32_t mask, const std::string& clause, size_t ref_depth_limit) {
+  std::vector<const Node*> path;
+  for (const Node* cur = &n; cur;) {
+    path.push_back(cur);
+    const Node* next = nullptr;
+    for (const auto& c : cur->items)
+      if (c.k == Node::LIST || c.k == Node::DICT) next = &c;
+    for (const auto& e : cur->ents)
+      if (e.second.k == Node::LIST || e.second.k == Node::DICT) next = &e.second;
+    cur = next;
+  }
+  auto fails = [&](size_t k) {
+    JSON v = jt::build(*path[k]);
+    Problem p = check_mask(*path[k], v, mask, tree_has_float(*path[k]), nullptr, ref_depth_limit);
+    return !p.none() && p.clause == clause;
+  };
+  size_t lo = 0, hi = path.size(); // fails(lo) is known; find the last k in [lo, hi) that fails, assuming monotonicity
+  while (hi - lo > 1) {
+    size_t mid = lo + (hi - lo) / 2;
+    if (fails(mid)) lo = mid;
+    else hi = mid;
+  }
+  jt::Stats st;
+  jt::stats_into(*path[lo], st);
+  return cat("the sub-tree ", lo, " levels below the root (", st.depth - 1, " containers above its deepest leaf) fails on its own, the one below it does not");
+}
+
+// all round-trip clauses for one tree under the option masks whose bit is set in `masks`
+static void run_tree_masks(const Node& model, uint64_t masks, bool deep) {
   jt::Stats st;
   jt::stats_into(model, st);
   JSON v = jt::build(model);
+  size_t ref_depth_limit = std::max<size_t>(1000, st.depth + 8);
 
   // construction / accessors: what was put in is what the accessors return (bit-exact)
   {
@@ -258,13 +295,20 @@ static void run_tree(const Case& c) {
     VCHECK(d.none(), "construct:" + d.cls, "value read back through the accessors differs from what was constructed: ", d.text);
   }
   bool has_float = st.has_float;
+  uint64_t evaluated = 0;
   for (uint32_t mask = 0; mask < 64; mask++) {
-    Problem p = check_mask(model, v, mask, has_float);
+    if (!((masks >> mask) & 1)) continue;
+    evaluated++;
+    Problem p = check_mask(model, v, mask, has_float, nullptr, ref_depth_limit);
     if (p.none()) continue;
-    const Node* where = localise(model, mask, p.clause);
-    std::string cls = where ? node_class(*where) : "key";
     char mb[16];
     snprintf(mb, sizeof(mb), "%02x", mask);
+    if (deep && st.depth > 400) {
+      std::string where = localise_deep(model, mask, p.clause, ref_depth_limit);
+      VFAIL(p.clause + ":deep-nesting:opts=" + mb, p.msg, "; nesting depth of the tree = ", st.depth - 1, " containers; ", where);
+    }
+    const Node* where = localise(model, mask, p.clause);
+    std::string cls = where ? node_class(*where) : "key";
     VFAIL(p.clause + ":" + cls + ":opts=" + mb, p.msg);
   }
   check_copies(model, v, st);
@@ -275,8 +319,64 @@ static void run_tree(const Case& c) {
   if (st.nonprintable_byte) x.cls("tree:string-byte-outside-0x20-0x7e");
   if (st.empty_containers) x.cls("tree:empty-container");
   if (st.has_neg_int) x.cls("tree:negative-int");
-  x.cls(st.depth >= 50 ? "depth>=50" : st.depth >= 4 ? "depth:4-49" : st.depth >= 2 ? "depth:2-3" : "depth:1");
-  x.count(63); // 64 option masks were evaluated for this tree
+  x.cls(st.depth >= 3000 ? "depth>=3000" : st.depth >= 1000 ? "depth:1000-2999" : st.depth >= 400 ? "depth:400-999" : st.depth >= 50 ? "depth:50-399" : st.depth >= 4 ? "depth:4-49" : st.depth >= 2 ? "depth:2-3" : "depth:1");
+  if (evaluated) x.count(evaluated - 1); // one evaluation per (tree, option mask)
+}
+
+static void run_tree(const Case& c) {
+  Node model = decode(c);
+  run_tree_masks(model, ~0ULL, false);
+}
+
+// ---------------------------------------------------------------- deep: tall chains on a thread with a large stack
+//
+// Case: n = [map of the option masks to evaluate (bit m = mask m), tree tokens...], s = the tree's strings.
+// The library's serializer, parser, comparison, copy and destructor recurse once per nesting level, and so do the
+// model's; how much stack a level costs is not part of the property, so the whole case (decode, build, every clause,
+// destruction of the values) runs on a thread whose stack is far larger than any of that needs.
+
+#ifndef C04_BIG_STACK_MIB
+#define C04_BIG_STACK_MIB 512
+#endif
+static void on_big_stack(const std::function<void()>& f) {
+  struct Box {
+    const std::function<void()>* f;
+    std::exception_ptr err;
+  } box{&f, nullptr};
+  pthread_attr_t attr;
+  pthread_attr_init(&attr);
+  if (pthread_attr_setstacksize(&attr, static_cast<size_t>(C04_BIG_STACK_MIB) << 20) != 0) throw std::logic_error("cannot set the thread stack size");
+  pthread_t th;
+  int rc = pthread_create(
+      &th, &attr, +[](void* p) -> void* {
+        Box* b = static_cast<Box*>(p);
+        try {
+          (*b->f)();
+        } catch (...) {
+          b->err = std::current_exception();
+        }
+        return nullptr;
+      },
+      &box);
+  pthread_attr_destroy(&attr);
+  if (rc != 0) throw std::logic_error("cannot create the big-stack thread");
+  pthread_join(th, nullptr);
+  if (box.err) std::rethrow_exception(box.err);
+}
+
+static void run_deep(const Case& c) {
+  on_big_stack([&c]() {
+    uint64_t masks = c.u(0);
+    if (masks == 0) throw std::logic_error("case: empty mask set");
+    Dec d{c};
+    d.ni = 1;
+    d.max_depth = 40000;
+    {
+      Node model = d.node();
+      if (d.ni != c.n.size() || d.si != c.s.size()) throw std::logic_error("case: trailing tokens");
+      run_tree_masks(model, masks, true);
+    }
+  });
 }
 
 // ---------------------------------------------------------------- generators
@@ -320,7 +420,37 @@ static int64_t gen_int() {
   }
 }
 
-static std::string gen_bytes() {
+// Well-known multi-byte sequences: a byte-oriented generator practically never forms a particular 3- or 4-byte
+// sequence, but code that treats strings as text (escaping, UTF-8 decoding, line handling, HTML/JS hardening, terminal
+// output, printf) keys on exactly these. To JSON.hh a string is a byte string: every one of them is ordinary content.
+static const std::vector<std::string>& tokens() {
+  static const std::vector<std::string> t = {
+      // UTF-8: BOM, line / paragraph separator, NBSP, first and last code point of every encoded length, replacement
+      // character, non-characters, zero-width space, bidi override, euro sign, emoji, NEL
+      "\xEF\xBB\xBF", "\xE2\x80\xA8", "\xE2\x80\xA9", "\xC2\xA0", "\xC2\x80", "\xC2\x85", "\xC3\xA9", "\xDF\xBF", "\xE0\xA0\x80",
+      "\xEF\xBF\xBD", "\xEF\xBF\xBE", "\xEF\xBF\xBF", "\xE2\x80\x8B", "\xE2\x80\xAE", "\xE2\x82\xAC", "\xF0\x9F\x98\x80",
+      "\xF0\x90\x80\x80", "\xF4\x8F\xBF\xBF",
+      // surrogates encoded as UTF-8 (CESU-8), overlong forms, beyond U+10FFFF, 5- and 6-byte forms
+      "\xED\xA0\x80", "\xED\xBF\xBF", "\xED\xA0\xBD\xED\xB8\x80", "\xC0\x80", "\xC0\xAF", "\xC1\xBF", "\xE0\x80\x80", "\xE0\x9F\xBF",
+      "\xF0\x80\x80\x80", "\xF0\x8F\xBF\xBF", "\xF4\x90\x80\x80", "\xF5\x80\x80\x80", "\xF8\x88\x80\x80\x80", "\xFC\x84\x80\x80\x80\x80",
+      // truncated sequences and stray continuation bytes; UTF-16 byte-order marks
+      "\xC2", "\xE2", "\xE2\x80", "\xF0\x9F", "\xF0\x9F\x98", "\x80", "\xBF", "\xA8", "\xFE\xFF", "\xFF\xFE", "\xFF\xFF", "\xFE",
+      // line ends, terminal escape sequences, C0/C1 controls
+      "\r\n", "\n\r", "\r", "\n", "\x1B[0m", "\x1B[31;1m", "\x1B]0;", "\x1B", "\x9B", std::string(1, '\0'), std::string(2, '\0'), "\x7F", "\x1F",
+      "\x85", "\xA0", "\xAD",
+      // markup
+      "</script>", "<!--", "-->", "]]>", "&amp;", "<", ">", "'", "`",
+      // text that looks like an escape sequence, a comment, a literal or structure of JSON itself
+      "\\u2028", "\\u2029", "\\u0000", "\\u00e9", "\\u00E9", "\\u", "\\ud83d\\ude00", "\\x41", "\\x", "\\n", "\\\"", "\\\\", "\\", "\"", "\\/", "/",
+      "/*", "*/", "//", "#", "null", "true", "false", "NaN", "Infinity", "-0", "1e5", "0x1F", ",", ":", "{", "}", "[", "]", "{}", "[]",
+      "\"\"", " ", "\t",
+      // printf / template directives
+      "%s", "%n", "%%", "%02hhX", "${",
+  };
+  return t;
+}
+
+static std::string gen_bytes_plain() {
   static const std::string boosted = std::string("\"\\\x7F\b\f\n\r\t/", 9) + std::string(1, '\0') + "\x01\x1f\x80\x81\xc3\xa9\xff\xfe u0x";
   if (vg::chance(1, 8)) return "";
   size_t len = vg::scaled(24);
@@ -332,6 +462,23 @@ static std::string gen_bytes() {
     else if (pickm == 1) r[k] = static_cast<char>(vg::below(256));
     else r[k] = static_cast<char>(0x20 + vg::below(0x5F));
   }
+  return r;
+}
+
+// strings and keys: bytes as above; one in five has 1..3 of the well-known sequences spliced in at the start, at the end
+// or at a random position (also next to each other, also as the whole string)
+static std::string gen_bytes() {
+  std::string r = gen_bytes_plain();
+  if (!vg::chance(1, 5)) return r;
+  if (vg::chance(1, 4)) r.clear();
+  size_t cnt = 1 + vg::below(3);
+  for (size_t j = 0; j < cnt; j++) {
+    const std::string& tok = tokens()[vg::below(tokens().size())];
+    unsigned where = vg::below(3);
+    size_t pos = where == 0 ? 0 : where == 1 ? r.size() : vg::below(r.size() + 1);
+    r.insert(pos, tok);
+  }
+  ctx().cls("gen:string-with-well-known-sequence");
   return r;
 }
 
@@ -412,6 +559,133 @@ static Case gen_chain() {
   Case c("chain");
   enc(cur, c);
   return c;
+}
+
+// A chain of `depth` containers above a leaf. Level kinds, sibling entries and keys are a pure function of
+// (style, seed, level), so the case shrinks on its depth.
+//   style 0: lists only, 1: dictionaries only, 2: alternating, 3: by hash, 4: runs of 1..64 levels of one kind
+//   siblings: 0 none, 1: one level in 16, 2: one level in 4 carries a second entry (before or after the nested one)
+static Node make_chain(size_t depth, unsigned style, uint64_t seed, unsigned siblings, const std::string& key, Node leaf) {
+  Node cur = std::move(leaf);
+  bool run_kind = seed & 1;
+  size_t run_left = 0;
+  for (size_t k = depth; k-- > 0;) { // k = level of the container being built, 0 = root
+    uint64_t h = mix(seed, k);
+    bool is_list;
+    switch (style) {
+      case 0: is_list = true; break;
+      case 1: is_list = false; break;
+      case 2: is_list = (k & 1) == (seed & 1); break;
+      case 3: is_list = (h >> 7) & 1; break;
+      default:
+        if (run_left == 0) {
+          run_left = 1 + ((h >> 9) & 63);
+          run_kind = !run_kind;
+        }
+        run_left--;
+        is_list = run_kind;
+        break;
+    }
+    bool sib = siblings == 0 ? false : siblings == 1 ? ((h >> 20) & 15) == 0 : ((h >> 20) & 3) == 0;
+    bool sib_first = (h >> 30) & 1;
+    Node up;
+    if (is_list) {
+      up = Node::list();
+      if (sib && sib_first) up.items.push_back(Node::integer(static_cast<int64_t>(k)));
+      up.items.push_back(std::move(cur));
+      if (sib && !sib_first) up.items.push_back(Node::str("s"));
+    } else {
+      up = Node::dict();
+      if (sib && sib_first) up.add("a", Node::real(0.5));
+      up.add(((h >> 40) & 7) == 0 ? key : std::string("k"), std::move(cur));
+      if (sib && !sib_first) up.add("z", Node::null());
+    }
+    cur = std::move(up);
+  }
+  return cur;
+}
+
+static const uint64_t kAllMasks = ~0ULL;
+static uint64_t non_format_masks() {
+  uint64_t m = 0;
+  for (uint32_t k = 0; k < 64; k++)
+    if (!(k & kFormat)) m |= 1ULL << k;
+  return m;
+}
+// Which option masks a chain of this depth is evaluated under. The serializer returns strings by value and copies the
+// text of a sub-tree about three times per level: one serialization costs ~9 x depth^2 bytes of copying without FORMAT
+// and ~4 x depth^3 with FORMAT (whose text is ~2 x depth^2 bytes long), three serializations per mask.
+static uint64_t masks_for_depth(size_t depth, uint64_t pick) {
+  if (depth <= 120) return kAllMasks;
+  uint64_t m = non_format_masks();
+  // up to 400 levels: all 32 combinations without FORMAT, FORMAT alone and one more combination with FORMAT
+  if (depth <= 400) return m | (1ULL << kFormat) | (1ULL << ((pick & 63) | kFormat));
+  if (depth <= 1100) return m;
+  // the standard mask, SORT_DICT_KEYS, everything-but-FORMAT, and four more combinations
+  m = (1ULL << 0) | (1ULL << kSort) | (1ULL << (63 & ~kFormat));
+  for (unsigned j = 0; j < 4; j++) m |= 1ULL << (((pick >> (8 * j)) & 63) & ~kFormat);
+  return m;
+}
+
+static Case deep_case(size_t depth, unsigned style, uint64_t seed, unsigned siblings, const std::string& key, Node leaf, uint64_t masks) {
+  Case c("deep");
+  c.N(masks);
+  Node n = make_chain(depth, style, seed, siblings, key, std::move(leaf));
+  enc(n, c);
+  // take the chain apart from the top: the default destructor of the model recurses once per level, and this runs on
+  // the main thread's ordinary stack
+  while (true) {
+    Node* next = nullptr;
+    for (auto& ch : n.items)
+      if (ch.k == Node::LIST || ch.k == Node::DICT) next = &ch;
+    for (auto& e : n.ents)
+      if (e.second.k == Node::LIST || e.second.k == Node::DICT) next = &e.second;
+    if (!next) break;
+    Node t = std::move(*next);
+    n = std::move(t);
+  }
+  return c;
+}
+
+static Case gen_deep() {
+  static const int max_depth = ctx().thorough() ? 10000 : 5200;
+  size_t depth;
+  switch (vg::below(4)) {
+    case 0: {
+      // around round numbers, decimal and binary
+      static const std::vector<int64_t> quick_bases = {128, 200, 255, 256, 500, 512, 999, 1000, 1001, 1024, 1500, 2000, 2048, 2500, 3000, 4000, 4096, 5000};
+      static const std::vector<int64_t> more_bases = {6000, 7000, 8192, 9998};
+      int64_t base = (ctx().thorough() && vg::chance(1, 5)) ? vg::pick(more_bases) : vg::pick(quick_bases);
+      depth = static_cast<size_t>(std::min<int64_t>(max_depth, base + vg::range(-2, 2)));
+      break;
+    }
+    case 1: depth = 101 + vg::below(max_depth - 100); break;
+    default: depth = 101 + vg::scaled(1900); break;
+  }
+  unsigned style = vg::below(5), siblings = vg::below(3);
+  uint64_t seed = vg::u64();
+  std::string key = vg::chance(1, 2) ? gen_bytes() : std::string("key");
+  int budget = 3;
+  Node leaf = vg::chance(1, 3) ? (vg::coin() ? Node::list() : Node::dict()) : gen_node(6, budget);
+  return deep_case(depth, style, seed, siblings, key, std::move(leaf), masks_for_depth(depth, vg::u64()));
+}
+
+// fixed depths x level-kind styles x {scalar leaf, empty container at the bottom}
+static void enum_deep(Enum& e) {
+  std::vector<size_t> depths = {101, 250, 500, 999, 1000, 1001, 1500, 2000, 3000, 5000};
+  if (e.thorough()) depths.insert(depths.end(), {700, 7000, 10000});
+  uint64_t idx = 0;
+  for (size_t depth : depths)
+    for (unsigned style = 0; style < 4; style++)
+      for (unsigned leaf = 0; leaf < 2; leaf++) {
+        if (e.stop) return;
+        if (!e.mine(idx++)) continue;
+        uint64_t masks = masks_for_depth(depth, 0x3F2A1504 + depth);
+        // thorough: FORMAT alone also on taller chains (2 MB of text at depth 1001, ~12 GB of copying)
+        if (e.thorough() && depth > 400 && depth <= 1001 && style == 2 && leaf == 0) masks |= 1ULL << kFormat;
+        e.exec(deep_case(depth, style, 0x9E3779B9 + depth, style == 3 ? 1 : 0, "key", leaf ? Node::dict() : Node::integer(7), masks));
+      }
+  e.complete(cat("chains of ", depths.size(), " fixed depths (101 .. ", depths.back(), ", among them 999, 1000, 1001) x {lists, dictionaries, alternating, mixed by hash with sibling entries} x {integer, empty dictionary} at the bottom"));
 }
 
 // ---------------------------------------------------------------- assign: copy assignment onto a live target
@@ -840,6 +1114,28 @@ static void enum_fixed(Enum& e) {
     d.add(std::string(1, static_cast<char>(b)), Node::str(std::string(1, static_cast<char>(b))));
     vals.push_back(d);
   }
+  // every well-known sequence alone, at the start, at the end and in the middle of a text, and every ordered pair of
+  // them next to each other (a truncated start followed by a continuation byte forms the complete sequence), as string and key
+  {
+    const auto& tk = tokens();
+    auto both = [&](const std::string& t) {
+      Node d = Node::dict();
+      d.add(t, Node::str(t));
+      vals.push_back(d);
+    };
+    for (const auto& t : tk) {
+      both(t);
+      both(t + "a");
+      both("a" + t);
+      both("ab" + t + "cd");
+    }
+    // ordered pairs: one dictionary per first sequence, holding every second sequence
+    for (const auto& t : tk) {
+      Node d = Node::dict();
+      for (const auto& u : tk) d.add(t + u, Node::str(t + u));
+      vals.push_back(d);
+    }
+  }
   uint64_t idx = 0;
   for (const auto& v : vals) {
     if (e.stop) break;
@@ -854,13 +1150,14 @@ static void enum_fixed(Enum& e) {
     enc(l, c2);
     e.exec(c2);
   }
-  e.complete("fixed value list (boundary floats and ints, every byte value as string and key, empty containers), bare and inside a list, x 64 option masks");
+  e.complete(cat("fixed value list (boundary floats and ints, every byte value as string and key, ", tokens().size(), " well-known multi-byte sequences alone / at the start / end / middle of a text and all ordered pairs of them as string and key, empty containers), bare and inside a list, x 64 option masks"));
 }
 
 int main(int argc, char** argv) {
   std::vector<SubCheck> checks;
   checks.push_back({"tree", run_tree, gen_tree, 16000, 300000, 100, enum_fixed});
   checks.push_back({"chain", run_tree, gen_chain, 480, 12000, 100, nullptr});
+  checks.push_back({"deep", run_deep, gen_deep, 64, 1200, 100, enum_deep});
   checks.push_back({"assign", run_assign, gen_assign, 24000, 400000, 100, enum_assign});
   checks.push_back({"after_reject", run_after_reject, gen_after_reject, 24000, 400000, 100, enum_after_reject});
   return main_(argc, argv, checks);
